@@ -23,106 +23,6 @@ type Case struct {
 	Neg       string  `json:"neg,omitempty"`
 }
 
-// refWriter is an independent serializer of the OGC simple-features WKB layout.
-type refWriter struct {
-	buf    bytes.Buffer
-	orders []bool
-	k      int
-}
-
-func (w *refWriter) next() binary.ByteOrder {
-	o := w.orders[w.k%len(w.orders)]
-	w.k++
-	if o {
-		return binary.BigEndian
-	}
-	return binary.LittleEndian
-}
-func (w *refWriter) u32(bo binary.ByteOrder, v uint32) {
-	var b [4]byte
-	bo.PutUint32(b[:], v)
-	w.buf.Write(b[:])
-}
-func (w *refWriter) f64(bo binary.ByteOrder, v vkit.F) {
-	var b [8]byte
-	bo.PutUint64(b[:], math.Float64bits(float64(v)))
-	w.buf.Write(b[:])
-}
-func (w *refWriter) header(code uint32) binary.ByteOrder {
-	bo := w.next()
-	if bo == binary.BigEndian {
-		w.buf.WriteByte(0)
-	} else {
-		w.buf.WriteByte(1)
-	}
-	w.u32(bo, code)
-	return bo
-}
-func (w *refWriter) pts(bo binary.ByteOrder, p []vkit.P2) {
-	w.u32(bo, uint32(len(p)))
-	for _, q := range p {
-		w.f64(bo, q[0])
-		w.f64(bo, q[1])
-	}
-}
-func (w *refWriter) geom(g vkit.GJ) {
-	switch g.T {
-	case "Point":
-		bo := w.header(1)
-		w.f64(bo, g.Pts[0][0])
-		w.f64(bo, g.Pts[0][1])
-	case "LineString":
-		bo := w.header(2)
-		w.pts(bo, g.Pts)
-	case "Polygon":
-		bo := w.header(3)
-		w.u32(bo, uint32(len(g.Rings)))
-		for _, r := range g.Rings {
-			w.pts(bo, r)
-		}
-	case "MultiPoint":
-		bo := w.header(4)
-		w.u32(bo, uint32(len(g.Pts)))
-		for _, p := range g.Pts {
-			w.geom(vkit.GJ{T: "Point", Pts: []vkit.P2{p}})
-		}
-	case "MultiLineString":
-		bo := w.header(5)
-		w.u32(bo, uint32(len(g.Rings)))
-		for _, r := range g.Rings {
-			w.geom(vkit.GJ{T: "LineString", Pts: r})
-		}
-	case "MultiPolygon":
-		bo := w.header(6)
-		w.u32(bo, uint32(len(g.Polys)))
-		for _, p := range g.Polys {
-			w.geom(vkit.GJ{T: "Polygon", Rings: p})
-		}
-	case "GeometryCollection":
-		bo := w.header(7)
-		w.u32(bo, uint32(len(g.Geoms)))
-		for _, m := range g.Geoms {
-			w.geom(m)
-		}
-	default:
-		panic("ref: " + g.T)
-	}
-}
-
-// RefWKB serialises g with the given per-element orders.
-func RefWKB(g vkit.GJ, orders []bool) []byte {
-	w := &refWriter{orders: orders}
-	w.geom(g)
-	return w.buf.Bytes()
-}
-
-// elements counts the WKB elements (headers) of g.
-func elements(g vkit.GJ) int {
-	w := &refWriter{orders: []bool{false}}
-	w.geom(g)
-	return w.k
-}
-
 func gen(t *rapid.T) Case {
 	var c Case
 	if rapid.IntRange(0, 39).Draw(t, "negsel") == 0 {
@@ -176,7 +76,7 @@ func run(c Case) (v vkit.Verdict) {
 	}
 	g := c.G.Geom()
 	mixed := false
-	for i := 0; i < elements(c.G); i++ {
+	for i := 0; i < vkit.WKBElements(c.G); i++ {
 		if o := c.Orders[i%len(c.Orders)]; o != c.Orders[0] {
 			mixed = true
 		}
@@ -199,7 +99,7 @@ func run(c Case) (v vkit.Verdict) {
 	if err != nil {
 		return v.Fail("Encode error: %v", err)
 	}
-	want := RefWKB(c.G, []bool{c.BigEndian})
+	want := vkit.RefWKB(c.G, []bool{c.BigEndian})
 	if !bytes.Equal(got, want) {
 		return v.Fail("Encode bytes differ from OGC layout:\n got  %x\n want %x", got, want)
 	}
@@ -213,7 +113,7 @@ func run(c Case) (v vkit.Verdict) {
 		return v.Fail("Decode(Encode(g)) != g: got %+v", back)
 	}
 	// (3) mixed byte orders at every nesting level
-	mixedBytes := RefWKB(c.G, c.Orders)
+	mixedBytes := vkit.RefWKB(c.G, c.Orders)
 	back2, err := wkb.Decode(mixedBytes)
 	if err != nil {
 		return v.Fail("Decode of mixed-order encoding %x: error %v", mixedBytes, err)
